@@ -865,6 +865,7 @@ class Traph(object):
 
                 if not node.has_outlinks():
                     last_path = path
+                    last_path_i = i
                     continue
 
                 # Iterating over the page's outlinks
